@@ -87,30 +87,38 @@ pub open spec fn gen_p4() -> P4 {
          t: 7709528722369014828560854854815397945854484030754980890329689855465844419067int }
 }
 // ---- Encoding (spec "Encoding", steps 1-5)
-pub open spec fn spec_encode(p: P4) -> int {
+// the steps with the inverse square root v made explicit (the gadget contracts quantify over the witnessed root)
+pub open spec fn enc_den(p: P4) -> int {
+    fmul(fmul(fmul(fadd(p.x, p.t), fsub(p.x, p.t)), fsub(A_(), D_())), fsq(p.x))
+}
+pub open spec fn spec_encode_v(p: P4, v: int) -> int {
     let amd = fsub(A_(), D_());
     let u1 = fmul(fadd(p.x, p.t), fsub(p.x, p.t));
-    let v = isqrt_root(1, fmul(fmul(u1, amd), fsq(p.x)));
     let u2 = fabs(fmul(v, u1));
     let u3 = fsub(fmul(u2, p.z), p.t);
     fabs(fmul(fmul(fmul(amd, v), u3), p.x))
 }
+pub open spec fn spec_encode(p: P4) -> int { spec_encode_v(p, isqrt_root(1, enc_den(p))) }
 // ---- Decoding (spec "Decoding", steps 1-7) of a canonical field element s
+pub open spec fn dec_den(s: int) -> int {
+    let ss = fsq(s);
+    let u1 = fsub(1, ss);
+    let u2 = fsub(fsq(u1), fmul(fmul(4, D_()), ss));
+    fmul(u2, fsq(u1))
+}
+// steps 6-7 for a given root v0 of 1/dec_den(s)
+pub open spec fn spec_decode_v(s: int, v0: int) -> P4 {
+    let ss = fsq(s);
+    let u1 = fsub(1, ss);
+    let u2 = fsub(fsq(u1), fmul(fmul(4, D_()), ss));
+    let tsu1 = fmul(fmul(2, s), u1);
+    let v = if is_neg(fmul(tsu1, v0)) { fneg(v0) } else { v0 };
+    let x = fmul(fmul(tsu1, fsq(v)), u2);
+    let y = fmul(fmul(fadd(1, ss), v), u1);
+    P4 { x: x, y: y, z: 1, t: fmul(x, y) }
+}
 pub open spec fn spec_decode(s: int) -> Option<P4> {
-    if is_neg(s) { None } else {
-        let ss = fsq(s);
-        let u1 = fsub(1, ss);
-        let u2 = fsub(fsq(u1), fmul(fmul(4, D_()), ss));
-        let den = fmul(u2, fsq(u1));
-        if !isqrt_flag(1, den) { None } else {
-            let v0 = isqrt_root(1, den);
-            let tsu1 = fmul(fmul(2, s), u1);
-            let v = if is_neg(fmul(tsu1, v0)) { fneg(v0) } else { v0 };
-            let x = fmul(fmul(tsu1, fsq(v)), u2);
-            let y = fmul(fmul(fadd(1, ss), v), u1);
-            Some(P4 { x: x, y: y, z: 1, t: fmul(x, y) })
-        }
-    }
+    if is_neg(s) { None } else if !isqrt_flag(1, dec_den(s)) { None } else { Some(spec_decode_v(s, isqrt_root(1, dec_den(s)))) }
 }
 // byte level: 32 bytes, little endian, top three bits clear, value below q
 pub open spec fn decode_bytes_spec(b: Seq<u8>) -> Option<P4> {
@@ -118,21 +126,31 @@ pub open spec fn decode_bytes_spec(b: Seq<u8>) -> Option<P4> {
 }
 
 // ---- Elligator 2 (spec "Group hash" / ristretto.sage Decaf_1_1_Point.elligator, optimised step list)
-pub open spec fn ell_opt(r0: int) -> P4 {
+pub open spec fn ell_x(r0: int) -> int {
     let r = fmul(ZETA_(), fsq(r0));
     let dma = fsub(D_(), A_());
     let den = fmul(fsub(fmul(D_(), r), dma), fsub(fmul(dma, r), D_()));
     let a2d = fsub(A_(), fmul(2, D_()));
     let num = fmul(fadd(r, 1), a2d);
-    let x = fmul(num, den);
-    let iss = isqrt_flag(1, x);
-    let isri0 = isqrt_root(1, x);
+    fmul(num, den)
+}
+// Jacobi-quartic coordinates (s, t) for a given inverse-square-root answer (iss, isri0)
+pub open spec fn ell_st(r0: int, iss: bool, isri0: int) -> (int, int) {
+    let r = fmul(ZETA_(), fsq(r0));
+    let a2d = fsub(A_(), fmul(2, D_()));
+    let num = fmul(fadd(r, 1), a2d);
     let sgn = if iss { 1 } else { fneg(1) };
     let twiddle = if iss { 1 } else { r0 };
     let isri = fmul(isri0, twiddle);
     let s0 = fmul(isri, num);
     let t = fsub(fmul(fmul(fmul(fmul(fneg(sgn), isri), s0), fsub(r, 1)), fsq(a2d)), 1);
     let s = if is_neg(s0) == iss { fneg(s0) } else { s0 };
+    (s, t)
+}
+pub open spec fn ell_v(r0: int, iss: bool, isri0: int) -> P4 {
+    let st = ell_st(r0, iss, isri0);
+    let s = st.0;
+    let t = st.1;
     // Jacobi quartic (s, t) -> extended coordinates
     let e = fmul(2, s);
     let f = fadd(1, fmul(A_(), fsq(s)));
@@ -140,3 +158,4 @@ pub open spec fn ell_opt(r0: int) -> P4 {
     let h = t;
     P4 { x: fmul(e, h), y: fmul(f, g), z: fmul(f, h), t: fmul(e, g) }
 }
+pub open spec fn ell_opt(r0: int) -> P4 { ell_v(r0, isqrt_flag(1, ell_x(r0)), isqrt_root(1, ell_x(r0))) }
